@@ -99,9 +99,9 @@ impl Check for C16 {
     }
     fn n_runs(&self, thorough: bool) -> u64 {
         if thorough {
-            80_000
+            1_900_000
         } else {
-            3_000
+            40_000
         }
     }
     fn gen_plan(&self, seed: u64, _idx: u64, _t: bool) -> Value {
